@@ -69,14 +69,15 @@ Proof. intro Hl. simpl. destruct j; try reflexivity. rewrite (enum_assoc S n vs 
 (* ------------------------------------------------------------------------------------------- *)
 (* the additional guard of the strictness direction *)
 Definition field_strict (C : cfg) (S : schema) (nested : bool) (tn : string) (f : fnode) : bool :=
-  if String.eqb (fn_name f) "__typename" then nested       (* F29: at the operation root it is a plain str *)
+  (* F29: at the operation root __typename is a plain str; under @skip/@include it is Optional and also
+     admits an explicit null *)
+  if String.eqb (fn_name f) "__typename" then nested && negb (fn_cond f)
   else match schema_field_type S tn (fn_name f) with
        | Ok t =>
            (* an Optional added for @skip/@include on a non-null type also admits an explicit null *)
            (negb (fn_cond f) || negb (is_nonnull t)) &&
            match lookup_type S (base_name t) with
            | Some DScalar => configured C (base_name t)
-           | Some (DInterface _ _) => false   (* the Literal of the base class contains the interface's own name *)
            | _ => true
            end
        | Err _ => false
@@ -84,10 +85,19 @@ Definition field_strict (C : cfg) (S : schema) (nested : bool) (tn : string) (f 
 
 (* the strictness guard of a composite field's sub-selection: at a union position it must hold for every
    member type *)
-Definition strict_sub (strict : string -> list sel -> bool) (S : schema) (base : string) (sub : list sel)
-  : bool :=
+Definition strict_sub (okb : string -> list sel -> bool) (strict : string -> list sel -> bool)
+           (S : schema) (base : string) (sub : list sel) : bool :=
   match lookup_type S base with
   | Some (DUnion ms) => forallb (fun m => strict m sub) ms
+  | Some (DInterface _ _) =>
+      (* every type condition names the interface or one of its possible types (F4), every possible type
+         has its own variant class, and the interface itself — whose name the base class's Literal
+         admits as __typename (F8) — is in the sub-language as a runtime type too *)
+      let names := abs_names S base sub in
+      forallb (fun t => String.eqb t base || mem t (possible_types S base)) names &&
+      forallb (fun s => mem s names) (possible_types S base) &&
+      okb base sub && strict base sub &&
+      forallb (fun s => strict s sub) (possible_types S base)
   | _ => strict base sub
   end.
 
@@ -101,7 +111,8 @@ Fixpoint sels_strict (fuel : nat) (C : cfg) (S : schema) (frs : list fragdef) (n
           forallb (fun f =>
             field_strict C S nested tn f &&
             match fn_sub f, schema_field_type S tn (fn_name f) with
-            | Some sub, Ok t => strict_sub (sels_strict g C S frs true) S (base_name t) sub
+            | Some sub, Ok t => strict_sub (fun b sb => sels_ok g true C S frs true b b sb)
+                                           (sels_strict g C S frs true) S (base_name t) sub
             | _, _ => true
             end) fns
       | None => false
@@ -164,16 +175,16 @@ Proof. intro H. exists 0. intros; exact H. Qed.
 Lemma ev_shift P : ev P -> ev (fun n => match n with O => false | Datatypes.S k => P k end).
 Proof. intros [a Ha]. exists (Datatypes.S a). intros [|k] Hn; [lia | apply Ha; lia]. Qed.
 
-Lemma wrapP_conf leafp eo S frs scs : forall t j,
-  wrapP (fun j' => j' <> JNull /\ ev (fun fc => conf_val_gen leafp eo fc S frs (TNamed (base_name t)) scs j')) t j ->
-  ev (fun fc => conf_val_gen leafp eo fc S frs t scs j).
+Lemma wrapP_conf leafp eo so S frs scs : forall t j,
+  wrapP (fun j' => j' <> JNull /\ ev (fun fc => conf_val_gen leafp eo so fc S frs (TNamed (base_name t)) scs j')) t j ->
+  ev (fun fc => conf_val_gen leafp eo so fc S frs t scs j).
 Proof.
   induction t as [n | t IH | t IH]; intros j H; simpl in H.
   - destruct H as [E | [_ H]]; [| exact H]. subst. exists 1. intros [|k] Hk; [lia | reflexivity].
   - destruct H as [E | [l [E Hf]]].
     + subst. exists 1. intros [|k] Hk; [lia | reflexivity].
     + subst. rewrite Forall_forall in Hf.
-      assert (He : ev (fun k => forallb (conf_val_gen leafp eo k S frs t scs) l)).
+      assert (He : ev (fun k => forallb (conf_val_gen leafp eo so k S frs t scs) l)).
       { apply ev_forallb. intros x Hx. apply IH, Hf, Hx. }
       apply ev_shift in He. destruct He as [a Ha]. exists a. intros [|k] Hk; [specialize (Ha 0 Hk); discriminate|].
       specialize (Ha _ Hk). exact Ha.
@@ -184,7 +195,7 @@ Qed.
 
 (* ------------------------------------------------------------------------------------------- *)
 (* lax conformance: conf_val with pydantic's lax leaf table, extra keys still forbidden          *)
-Definition lconf (fc : nat) (S : schema) (frs : list fragdef) := conf_val_gen lax_leaf false fc S frs.
+Definition lconf (fc : nat) (S : schema) (frs : list fragdef) := conf_val_gen lax_leaf false true fc S frs.
 Definition obj_lconf (fc : nat) (S : schema) (frs : list fragdef) (tn : string) (sels : list sel)
            (kv : list (string * json)) : bool :=
   conf_obj_gen false (lconf fc S frs) S tn (collect_scopes fc S frs tn [(false, sels)]) kv.
@@ -201,7 +212,9 @@ Section LevelS.
   Variables (fuel' g : nat) (cs : list pclass).
   Variable W : ann -> json -> bool.
   (* ok / strict: the guards required of nested selection sets *)
-  Variable ok : string -> string -> list sel -> bool.
+  Variable ok : bool -> string -> string -> list sel -> bool.
+  (* ok2: the same guard as computed inside the strictness guard (for the interface's own name) *)
+  Variable ok2 : bool -> string -> string -> list sel -> bool.
   Variable strict : string -> list sel -> bool.
   Hypothesis W_opt : forall a j, W (AOpt a) j = is_null j || W a j.
   Hypothesis W_list : forall a j, W (AList a) j = match j with JArr l => forallb (W a) l | _ => false end.
@@ -222,7 +235,8 @@ Section LevelS.
   Hypothesis fuel_pos : exists f2, fuel' = Datatypes.S f2.
   Hypothesis W_class : forall pub cn2 tn2 sels2 at2 out2 pub2 kv,
       parse_type_def fuel' C S frs pub cn2 tn2 sels2 at2 [] (Some [tn2]) = Ok (out2, pub2, false) ->
-      ok tn2 tn2 sels2 = true -> strict tn2 sels2 = true -> (at2 = true -> has_typename sels2 = true) ->
+      (ok at2 tn2 tn2 sels2 = true \/ ok2 at2 tn2 tn2 sels2 = true) -> strict tn2 sels2 = true ->
+      (at2 = true -> has_typename sels2 = true) ->
       table_ok cs out2 -> W (AClass cn2) (JObj kv) = true ->
       ev (fun fc => obj_lconf fc S frs tn2 sels2 kv).
 
@@ -233,27 +247,28 @@ Section LevelS.
 
   Definition sub_strict (tn : string) (f : fnode) : bool :=
     match fn_sub f, schema_field_type S tn (fn_name f) with
-    | Some sub, Ok t => strict_sub strict S (base_name t) sub
+    | Some sub, Ok t => strict_sub (fun b sb => ok2 true b b sb) strict S (base_name t) sub
     | _, _ => true
     end.
 
-  Lemma field_value_rev cn tn tv nested f pf ctx pub0 exc pub1 v :
-    field_ok ok g true S nested tn tn f = true ->
+  Lemma field_value_rev cn tn tv nested at_ f pf ctx pub0 exc pub1 v :
+    field_ok ok g true S at_ tn tn f = true ->
     field_strict C S nested tn f = true -> sub_strict tn f = true ->
     tv = (if nested then Some [tn] else None) ->
-    field_pf C S frs fuel' cn tn tv f = Ok (pf, ctx) ->
+    field_pf C S frs fuel' cn tn tv at_ f = Ok (pf, ctx) ->
     parse_subs (parse_type_def fuel' C S frs) S ctx f pub0 = Ok (exc, pub1, false) ->
     table_ok cs exc -> W (p_ann pf) v = true -> value_lconf tn f v.
   Proof.
     intros Hok Hst Hss Htv Hpf Hsub Htab Hw.
-    destruct (field_pf_inv _ _ _ _ _ _ _ _ _ _ Hpf) as [t [a0 [il [Ht [Ha Hpf']]]]]. subst pf.
+    destruct (field_pf_inv _ _ _ _ _ _ _ _ _ _ _ Hpf) as [t [a0 [il [Ht [Ha Hpf']]]]]. subst pf.
     cbn [p_ann mk_pfield] in Hw.
     unfold field_ok in Hok. apply andb_true_iff in Hok as [Hmix Hok].
     destruct (fn_mixins f) eqn:Emix; [| discriminate]. clear Hmix.
     unfold value_lconf. unfold field_strict in Hst.
     destruct (String.eqb (fn_name f) "__typename") eqn:Etn.
-    - subst nested tv. unfold field_ann_lit in Ha. rewrite Etn in Ha. simpl in Ha. inversion Ha; subst.
-      unfold cond_ann in Hw. apply W_lit, Hw.
+    - apply andb_true_iff in Hst as [Hnest Hnc]. apply negb_true_iff in Hnc.
+      subst nested tv. unfold field_ann_lit in Ha. rewrite Etn in Ha. simpl in Ha. inversion Ha; subst.
+      unfold cond_ann in Hw. rewrite Hnc in Hw. apply W_lit. destruct (true && at_); exact Hw.
     - assert (Hne : fn_name f <> "__typename") by (apply String.eqb_neq, Etn).
       rewrite Ht in Hok, Hst. apply andb_true_iff in Hok as [Hwf Hok]. apply andb_true_iff in Hwf as [Hwf _].
       apply andb_true_iff in Hst as [Hcn Hcfg].
@@ -264,7 +279,7 @@ Section LevelS.
       { unfold field_ann_lit in Ha. rewrite Etn in Ha.
         destruct tv as [[|v0 vs]|]; apply bind_ok in Ha; destruct Ha as [r [Hr Ha]];
           inversion Ha; subst; exists r; auto. }
-      destruct Ha' as [r [Hr [E1 [E2 E3]]]]. subst a0 ctx il. clear Ha.
+      destruct Ha' as [r [Hr [E1 [E2 E3]]]]. subst a0 ctx il. clear Ha. cbn [andb] in Hw.
       destruct (field_type_ann_image C S frs fuel' (fn_sub f) sc t true r Hwf Hr) as [img [Himg [Hfst _]]].
       simpl in Hfst. rewrite Hfst in Hw. unfold image in Himg.
       rewrite (cond_ann_id _ t img _ Hcn Himg) in Hw.
@@ -283,6 +298,14 @@ Section LevelS.
         - unfold object_ann in Hleaf. simpl in Hleaf. inversion Hleaf; subst x.
           destruct (W (AClass sc) JNull) eqn:E; [| reflexivity].
           apply W_class_obj in E. destruct E as [kv E]. discriminate E.
+        - (* interface *)
+          destruct (interface_ann S frs fuel' (Some sub) (base_name t) false sc false) as [[xa xc]|] eqn:Ei;
+            [| discriminate Hleaf].
+          inversion Hleaf; subst x.
+          destruct (W xa JNull) eqn:E; [| reflexivity].
+          destruct (interface_ann_shape _ _ _ _ _ _ _ _ _ Ei) as [[c0 Ec] | [alts Ec]]; subst xa.
+          + apply W_class_obj in E. destruct E as [kv E]. discriminate E.
+          + apply W_uni in E. destruct E as [kv [s0 [c0 [E _]]]]. discriminate E.
         - (* union *)
           destruct (fold_left _ ms _) as [r1|] eqn:Efold; simpl in Hleaf; [| discriminate Hleaf].
           inversion Hleaf; subst x.
@@ -322,6 +345,68 @@ Section LevelS.
         apply ev_shift in He. destruct He as [a Ha]. exists a. intros [|k] Hk; [specialize (Ha 0 Hk); discriminate|].
         specialize (Ha _ Hk). cbn [conf_val_gen]. rewrite El.
         unfold sub_scopes. simpl. rewrite Esub. simpl. rewrite andb_false_r. exact Ha.
+      + (* interface, every possible type with its own variant: the discriminator names the interface itself
+           (F8) or a possible type, whose class validated the object *)
+        set (base := base_name t) in *.
+        destruct fuel_pos as [f2 Ef].
+        unfold abs_ok in Hok.
+        apply andb_true_iff in Hok as [Hok Hall]. apply andb_true_iff in Hok as [Hok Hun].
+        apply andb_true_iff in Hok as [Hok Hnb]. apply andb_true_iff in Hok as [Hok Hsome].
+        apply andb_true_iff in Hok as [Hok Hns]. apply andb_true_iff in Hok as [_ Hht].
+        assert (Hna : named_ann C S frs fuel' (Some sub) base false sc false = Ok (x, snd r)).
+        { unfold named_ann. rewrite El. rewrite Hctx in Hleaf. inversion Hleaf; subst a1. exact Hctx. }
+        unfold strict_sub in Hss. rewrite El in Hss. fold base in Hss.
+        apply andb_true_iff in Hss as [Hss Hsp]. apply andb_true_iff in Hss as [Hss Hsb].
+        apply andb_true_iff in Hss as [Hss Hokb]. apply andb_true_iff in Hss as [Hnames_ok Hallv].
+        set (names := abs_names S base sub) in *.
+        pose proof Hna as Hna'. rewrite Ef in Hna'.
+        apply parse_subs_inv in Hsub. destruct Hsub as [[Hn _] | [sub' [Hs Hrun]]]; [congruence|].
+        rewrite Esub in Hs. inversion Hs; subst sub'; clear Hs.
+        assert (Hcand : forall t0, t0 = base \/ In t0 (possible_types S base) ->
+                                   In t0 (abs_candidates true S base)).
+        { intros t0 H. unfold abs_candidates. rewrite El. simpl. destruct H; auto. }
+        (* the class of a related type t0 validated the object => lax conformance for runtime type t0 *)
+        assert (Hfin : forall kv' cn0 t0, In {| r_class := cn0; r_type := t0 |} (x_related (snd r)) ->
+                  x_abstract (snd r) = true ->
+                  typename_values S (x_related (snd r)) t0 = [t0] ->
+                  t0 = base \/ In t0 (possible_types S base) ->
+                  W (AClass cn0) (JObj kv') = true ->
+                  ev (fun fc => conf_val_gen lax_leaf false true fc S frs (TNamed base)
+                                             (sub_scopes [node_of_fnode false f]) (JObj kv'))).
+        { intros kv' cn0 t0 Hrc Hab Htv0 Ht0 Hwc.
+          destruct (subs_run_each _ _ _ _ _ _ _ _ _ _ Hrun eq_refl _ Hrc) as [pa [qc [qp [Hq Hi]]]].
+          simpl in Hq. rewrite Hab, Emix, Htv0 in Hq.
+          assert (Hokt : ok true t0 t0 sub = true \/ ok2 true t0 t0 sub = true).
+          { destruct Ht0 as [E | Hin]; [subst t0; right; exact Hokb | left].
+            rewrite forallb_forall in Hall, Hallv. destruct (andb_prop _ _ (Hall t0 Hin)) as [_ Hv].
+            fold names in Hv. unfold variant in Hv. rewrite (Hallv t0 Hin) in Hv. exact Hv. }
+          assert (Hstt : strict t0 sub = true).
+          { destruct Ht0 as [E | Hin]; [subst t0; exact Hsb|]. rewrite forallb_forall in Hsp. apply Hsp, Hin. }
+          assert (He : ev (fun fc => obj_lconf fc S frs t0 sub kv')).
+          { eapply (W_class pa cn0 t0 sub true); eauto. eapply table_ok_incl; eauto. }
+          apply ev_shift in He. destruct He as [a Ha]. exists a. intros [|k] Hk; [specialize (Ha 0 Hk); discriminate|].
+          specialize (Ha _ Hk). cbn [conf_val_gen]. rewrite El. apply existsb_exists. exists t0.
+          split; [apply Hcand, Ht0|].
+          unfold sub_scopes. simpl. rewrite Esub. simpl. rewrite andb_false_r. exact Ha. }
+        destruct (named_ann_interface _ _ _ _ _ _ _ _ _ _ _ El (no_spread_top _ _ Hns) Hsome Hna')
+          as [Hab [[Hi [Hx Hrl]] | [Hi [Hx Hrl]]]]; subst x.
+        * (* no fragment: one class for the interface itself *)
+          destruct (W_class_obj _ _ Hwx) as [kv' Ej]. subst j'.
+          assert (En : names = [base]) by (unfold names, abs_names; rewrite El, Hi; reflexivity).
+          eapply (Hfin kv' sc base); eauto.
+          -- rewrite Hrl. left. reflexivity.
+          -- eapply tv_interface_singleton; eauto. rewrite Hrl. fold names. rewrite En. reflexivity.
+        * destruct (W_uni _ _ Hwx) as [kv' [s0 [c0 [Ej [Hjl [Hpick Hwc]]]]]]. subst j'.
+          unfold union_pick in Hpick. apply find_some in Hpick. destruct Hpick as [Hin Hpred].
+          apply in_map_iff in Hin. destruct Hin as [t0 [Ec0 Ht0]]. inversion Ec0; subst c0. clear Ec0.
+          fold names in Ht0, Hrl.
+          assert (Hrc : In (rel_of sc t0) (x_related (snd r))) by (rewrite Hrl; apply in_map, Ht0).
+          assert (Htv0 : typename_values S (x_related (snd r)) t0 = [t0]).
+          { eapply tv_interface_singleton; eauto. rewrite Hrl, map_map. simpl. apply map_id. }
+          assert (Ht0' : t0 = base \/ In t0 (possible_types S base)).
+          { rewrite forallb_forall in Hnames_ok. specialize (Hnames_ok t0 Ht0).
+            apply orb_true_iff in Hnames_ok as [E | E]; [left; apply String.eqb_eq, E | right; apply mem_In, E]. }
+          eapply (Hfin kv' (sc +++ t0) t0); eauto.
       + (* union: the discriminator names a member, whose class validated the object *)
         set (base := base_name t) in *.
         destruct fuel_pos as [f2 Ef].
@@ -376,7 +461,7 @@ Section LevelS.
           eapply table_ok_incl; eauto. }
         apply ev_shift in He. destruct He as [a Ha]. exists a. intros [|k] Hk; [specialize (Ha 0 Hk); discriminate|].
         specialize (Ha _ Hk). cbn [conf_val_gen]. rewrite El. apply existsb_exists. exists t0.
-        split; [rewrite Hposs; exact Ht0|].
+        split; [unfold abs_candidates; rewrite El; cbn [app]; rewrite Hposs; exact Ht0|].
         unfold sub_scopes. simpl. rewrite Esub. simpl. rewrite andb_false_r. exact Ha.
   Qed.
 
@@ -386,9 +471,9 @@ Section LevelS.
     (forall s, p_alias pf = Some s -> String.eqb (p_name pf) (field_key f) = false) /\
     (forall v, W (p_ann pf) v = true -> value_lconf tn f v).
 
-  Lemma level_facts_rev cn tn tv nested fns pub pfl extra pub' :
-    fields_run (parse_type_def fuel' C S frs) C S frs fuel' cn tn tv fns pub pfl extra pub' false ->
-    forallb (field_ok ok g true S nested tn tn) fns = true ->
+  Lemma level_facts_rev cn tn tv nested at_ fns pub pfl extra pub' :
+    fields_run (parse_type_def fuel' C S frs) C S frs fuel' cn tn tv at_ fns pub pfl extra pub' false ->
+    forallb (field_ok ok g true S at_ tn tn) fns = true ->
     forallb (fun f => field_strict C S nested tn f && sub_strict tn f) fns = true ->
     tv = (if nested then Some [tn] else None) -> table_ok cs extra ->
     Forall2 (field_facts_rev tn) fns pfl.
@@ -400,7 +485,7 @@ Section LevelS.
     apply andb_true_iff in Hst as [Hst Hss].
     assert (Hval : forall v, W (p_ann pf) v = true -> value_lconf tn f v).
     { intros v Hv. eapply field_value_rev; eauto. eapply table_ok_incl; eauto. }
-    destruct (field_pf_inv _ _ _ _ _ _ _ _ _ _ Hpf) as [t [a0 [il [Ht [Ha Hpf']]]]].
+    destruct (field_pf_inv _ _ _ _ _ _ _ _ _ _ _ Hpf) as [t [a0 [il [Ht [Ha Hpf']]]]].
     split; [subst pf; apply mk_pfield_key|]. split; [subst pf; reflexivity|].
     split; [| split; [| exact Hval]].
     - subst pf. cbn [p_default_none mk_pfield]. intro H. apply andb_true_iff in H as [_ H]. exact H.
@@ -500,7 +585,7 @@ Qed.
 
 Theorem obj_strict C S frs : forall fuel g gs nested pub cn tn sels at_ tv out pub' cs kv n,
   parse_type_def fuel C S frs pub cn tn sels at_ [] tv = Ok (out, pub', false) ->
-  sels_ok g true C S frs nested tn tn sels = true -> sels_strict gs C S frs nested tn sels = true ->
+  sels_ok g true C S frs at_ tn tn sels = true -> sels_strict gs C S frs nested tn sels = true ->
   (at_ = true -> has_typename sels = true) ->
   tv = (if nested then Some [tn] else None) -> table_ok cs out ->
   accepts n cs (schema_enums S) (AClass cn) (JObj kv) = true ->
@@ -509,7 +594,7 @@ Theorem obj_strict C S frs : forall fuel g gs nested pub cn tn sels at_ tv out p
 Proof.
   induction fuel as [|fuel IH]; intros g gs nested pub cn tn sels at_ tv out pub' cs kv n Hp Hok Hst Hat Htv Htab Hacc Hcov;
     [discriminate Hp|].
-  destruct (level_inv _ _ _ _ _ _ _ _ _ _ _ _ _ _ _ _ Hp Hok Hat) as [f2 [g' [fns [pfl [extra [Ef [Eg [Hfl [Hrun Hout]]]]]]]]].
+  destruct (level_inv _ _ _ _ _ _ _ _ _ _ _ _ _ _ _ Hp Hok Hat) as [f2 [g' [fns [pfl [extra [Ef [Eg [Hfl [Hrun Hout]]]]]]]]].
   destruct (sels_ok_inv _ _ _ _ _ _ _ _ _ Hok) as [g'' [fns' [Eg' [Hfl' [Hkeys [Hnames Hfields]]]]]].
   rewrite Eg in Eg'. inversion Eg'; subst g''. clear Eg'. specialize (Hnames eq_refl).
   rewrite Hfl in Hfl'. inversion Hfl'; subst fns'. clear Hfl'.
@@ -531,7 +616,7 @@ Proof.
     set (Wc := covers (Datatypes.S n1) cs) in *.
     assert (HF : Forall2 (field_facts_rev C S frs (fun a j => Wa a j && Wc a j) tn) fns pfl).
     { eapply level_facts_rev with (W := fun a j => Wa a j && Wc a j) (mro := mro_fields n1 cs)
-                                  (ok := sels_ok g' true C S frs true) (strict := sels_strict gs' C S frs true)
+                                  (ok := sels_ok g' true C S frs) (ok2 := sels_ok gs' true C S frs) (strict := sels_strict gs' C S frs true)
                                   (fuel' := fuel) (g := g') (cs := cs); try eassumption.
       - intros a j. unfold Wa, Wc. simpl. destruct (is_null j); reflexivity.
       - intros a j. unfold Wa, Wc. simpl. destruct j; try reflexivity. apply forallb_andb.
@@ -549,7 +634,7 @@ Proof.
       - intros c fs Hlc Hnc Hbc Hm. eapply mro_some_simple; eauto.
       - eauto.
       - intros pb cn2 tn2 sels2 at2 out2 pub2 kv2 P1 P2 P3 P3' P4 P5. apply andb_true_iff in P5 as [P5 P6].
-        eapply IH; eauto.
+        destruct P2 as [P2 | P2]; eapply IH; eauto.
       - eapply table_ok_incl; [exact Htab|]. rewrite Hout. apply incl_tl, incl_refl. }
     destruct (level_strict C S frs tn Wa Wc kv _ _ HF Hkeys Hnames Hacc Hcov) as [Hkv Hspec].
     pose proof (ev_forallb (fun fc f => key_spec (lconf fc S frs) S tn kv f) _ Hspec) as [a Ha].
@@ -571,7 +656,7 @@ Theorem op_strict C S frs fuel kind name sels root own pub' cls g gs j n :
   no_basemodel own = true ->
   accepts n cls (schema_enums S) (AClass (pascal_s name)) j = true ->
   covers n cls (AClass (pascal_s name)) j = true ->
-  ev (fun fc => conf_op_gen lax_leaf false fc S frs root sels j).
+  ev (fun fc => conf_op_gen lax_leaf false true fc S frs root sels j).
 Proof.
   intros Hroot Hop Hall Hok Hst Hnb Hacc Hcov.
   pose proof (op_table _ _ _ _ _ _ _ _ _ _ Hop Hall Hnb) as Htab.
@@ -593,7 +678,7 @@ Corollary op_strict_rejects C S frs fuel kind name sels root own pub' cls g gs j
   all_classes fuel C S frs (DOp kind name [] sels) = Ok cls ->
   op_ok g true C S frs root sels = true -> sels_strict gs C S frs false root sels = true ->
   no_basemodel own = true ->
-  (forall fc, conf_op_gen lax_leaf false fc S frs root sels j = false) ->
+  (forall fc, conf_op_gen lax_leaf false true fc S frs root sels j = false) ->
   covers n cls (AClass (pascal_s name)) j = true ->
   accepts n cls (schema_enums S) (AClass (pascal_s name)) j = false.
 Proof.
@@ -632,24 +717,28 @@ Proof.
 Qed.
 
 (* every conformant response is lax-conformant *)
-Lemma conf_val_gen_leaf_mono leafp1 leafp2 eo S frs :
+Lemma abs_candidates_incl so S n : incl (possible_types S n) (abs_candidates so S n).
+Proof. unfold abs_candidates. destruct so; [apply incl_appr|]; apply incl_refl. Qed.
+
+Lemma conf_val_gen_leaf_mono leafp1 leafp2 eo so S frs :
   (forall n d j, leafp1 S n d j = true -> leafp2 S n d j = true) ->
-  forall fuel t scs j, conf_val_gen leafp1 eo fuel S frs t scs j = true ->
-                       conf_val_gen leafp2 eo fuel S frs t scs j = true.
+  forall fuel t scs j, conf_val_gen leafp1 eo false fuel S frs t scs j = true ->
+                       conf_val_gen leafp2 eo so fuel S frs t scs j = true.
 Proof.
   intro Hl. induction fuel as [|fuel IH]; intros t scs j H; [discriminate H|].
   cbn [conf_val_gen] in *. destruct t as [n | t' | t'].
   - destruct j; try exact H;
       (destruct (lookup_type S n) as [[| vs | ifs fs | ifs fs | ms |]|]; try exact H; try (apply Hl; exact H));
       try (eapply conf_obj_gen_mono; [| exact H]; exact IH);
-      try (rewrite existsb_exists in *; destruct H as [rt [Hr1 Hr2]]; exists rt; split; [exact Hr1|];
+      try (rewrite existsb_exists in *; destruct H as [rt [Hr1 Hr2]]; exists rt;
+           split; [apply abs_candidates_incl; exact Hr1|];
            eapply conf_obj_gen_mono; [| exact Hr2]; exact IH).
   - destruct j; try exact H. rewrite forallb_forall in *. intros x Hx. apply IH, H, Hx.
   - destruct j; try exact H; apply IH, H.
 Qed.
 
 Corollary conf_op_lax fc S frs root sels j :
-  conf_op fc S frs root sels j = true -> conf_op_gen lax_leaf false fc S frs root sels j = true.
+  conf_op fc S frs root sels j = true -> conf_op_gen lax_leaf false true fc S frs root sels j = true.
 Proof.
   unfold conf_op, conf_op_gen. destruct j; auto;
     apply conf_val_gen_leaf_mono; intros; apply lax_leaf_weaker; assumption.
